@@ -887,6 +887,7 @@ fn run_tests(
                 return Ok(true);
             }
 
+            let corrections_before = corrected_entries.len();
             for (i, language_name) in attributes.languages.iter().enumerate() {
                 if !language_name.is_empty() {
                     let language = opts
@@ -1075,6 +1076,10 @@ fn run_tests(
                         }
                     }
                 }
+
+                // An updated file contains each test once (with the expectation of its first
+                // language), however many `:language(..)` lines it has.
+                corrected_entries.truncate(corrections_before + 1);
 
                 if i == attributes.languages.len() - 1 {
                     // reset to the first language
